@@ -86,9 +86,20 @@ def dispatch_symbolic(eng: Engine, func, args, kwargs):
     eng._skip_check = False
     h(eng, func, args, kwargs, out, pre)
     if not eng._skip_check:
+        # a float32 rounding error of an operand (within tolerance when it was produced) is amplified by a large concrete
+        # factor of a multiplicative op (e.g. x * 10**6 in round_decimals): the comparison tolerance scales with that factor
+        amp = 1.0
+        if name in ("mul", "mul_", "div", "div_", "addcmul", "addcmul_", "addcdiv", "addcdiv_"):
+            for a_ in tree_flatten((args, kwargs))[0]:
+                if isinstance(a_, (int, float)) and not isinstance(a_, bool):
+                    amp = max(amp, abs(float(a_)), 1.0 / abs(float(a_)) if (a_ and name.startswith("div")) else 1.0)
+                elif isinstance(a_, torch.Tensor) and not eng.has(a_) and a_.numel() == 1 and a_.dtype.is_floating_point:
+                    with eng.suspended():
+                        v_ = abs(float(a_.detach().reshape(-1)[0]))
+                    amp = max(amp, v_, 1.0 / v_ if (v_ and name.startswith("div")) else 1.0)
         for o in tree_flatten(out)[0]:
             if isinstance(o, torch.Tensor):
-                eng.check_tensor(o, str(func))
+                eng.check_tensor(o, str(func), amplify=min(amp, 1e9))
     return out
 
 
